@@ -135,3 +135,21 @@ def short(x, n=600):
 def status_name(res):
     st = getattr(res, "status", None)
     return getattr(st, "name", str(st))
+
+
+def fresh(x):
+    """An object equal to x but (where CPython allows) not identical to it: labels that are equal must be treated
+    as the same node even when they are different objects (tuples, run-time strings, ints above 256)."""
+    if isinstance(x, tuple):
+        return tuple([fresh(e) for e in x])
+    if isinstance(x, str):
+        return "".join(list(x)) if len(x) > 1 else x
+    if isinstance(x, bool):
+        return x
+    if isinstance(x, int):
+        return int(str(x))
+    if isinstance(x, float):
+        return float(repr(x))
+    if isinstance(x, frozenset):
+        return frozenset(fresh(e) for e in x)
+    return x
